@@ -174,3 +174,22 @@ M("c19_oracle_not_cleared", MD, "            self.oracle_data = None\n          
 M("c19_reference_not_adopted_on_ruled_out", MD, "            self.set_reference(self.oracle_data, target_name=target_column[0])\n", "            if self.drift_state == \"drift\":\n                self.set_reference(self.oracle_data, target_name=target_column[0])\n", ["C19"])
 M("c19_columns_by_count_only", MD, "        if len(labeled_columns) != len(reference_columns) or set(\n            labeled_columns\n        ) != set(reference_columns):", "        if len(labeled_columns) != len(reference_columns):", ["C19"])
 M("c19_two_sided_drift", MD, "            drift_level = self.reference_distribution[\"acc\"] - acc_labeled_samples", "            drift_level = abs(self.reference_distribution[\"acc\"] - acc_labeled_samples)", ["C19"])
+
+FM = "menelaus/injection/feature_manipulation.py"
+LM = "menelaus/injection/label_manipulation.py"
+NZ = "menelaus/injection/noise.py"
+IJ = "menelaus/injection/injector.py"
+M("c20_swap_slice_plus_one", FM, "        ret[from_index:to_index, [col_1, col_2]] = ret[\n            from_index:to_index, [col_2, col_1]\n        ]", "        ret[from_index:to_index + 1, [col_1, col_2]] = ret[\n            from_index:to_index + 1, [col_2, col_1]\n        ]", ["C20"])
+M("c20_swap_sequential_assign", FM, "        ret[from_index:to_index, [col_1, col_2]] = ret[\n            from_index:to_index, [col_2, col_1]\n        ]", "        ret[from_index:to_index, col_1] = ret[from_index:to_index, col_2]\n        ret[from_index:to_index, col_2] = ret[from_index:to_index, col_1]", ["C20"])
+M("c20_shift_global_mean", FM, "self._section_mean = np.mean(ret[from_index:to_index, col])", "self._section_mean = np.mean(ret[:, col])", ["C20"])
+M("c20_resample_whole_dataset", LM, "            cls_idx = cls_idx[(cls_idx < to_index) & (cls_idx >= from_index)]\n\n            # each member", "            cls_idx = cls_idx[(cls_idx < max(to_index, len(ret) // 2)) & (cls_idx >= from_index)]\n\n            # each member", ["C20"])
+M("c20_columns_not_restored", IJ, "            return pd.DataFrame(data, columns=self._columns)", "            return pd.DataFrame(data)", ["C20"])
+M("c20_no_copy", IJ, "        copy = np.copy(data)\n", "        copy = np.asarray(data)\n", ["C20", "C15"])
+M("c20_label_swap_window_inclusive", LM, "            (class_1_idx < to_index) & (class_1_idx >= from_index)", "            (class_1_idx <= to_index) & (class_1_idx >= from_index)", ["C20"])
+M("c20_join_only_first_class", LM, "            (ret[:, target_col] == class_1) | (ret[:, target_col] == class_2)", "            (ret[:, target_col] == class_1) | ((ret[:, target_col] == class_2) & (np.arange(len(ret)) % 5 != 4))", ["C20"])
+M("c20_walk_starts_at_zero", NZ, "        w = np.ones(steps) * x0\n", "        w = np.ones(steps) * x0\n        w[0] = 0 if steps > 3 else x0\n", ["C20"])
+M("c20_walk_step_size", NZ, "            w[i] = w[i - 1] + (yi / np.sqrt(steps))", "            w[i] = w[i - 1] + (yi / np.sqrt(steps - 1))", ["C20"])
+M("c20_probabilities_unnormalised_by_class", LM, "                cls_idx.shape[0] and class_probabilities[cls] / cls_idx.shape[0]\n", "                cls_idx.shape[0] and class_probabilities[cls] / (to_index - from_index)\n", ["C20"])
+M("c20_dirichlet_classes_misaligned", LM, "        self._alpha_values = [alpha[k] for k in alpha]", "        self._alpha_values = sorted(alpha[k] for k in alpha)", ["C20"])
+M("c20_cover_keeps_column", FM, "        ret = ret.drop(columns=[col]).reset_index(drop=True)", "        ret = ret.reset_index(drop=True)", ["C20"])
+M("c20_mutates_dict_again", LM, "        class_probabilities = dict(class_probabilities)\n", "", ["C20", "C15"])
